@@ -1673,9 +1673,13 @@ class Stream(AbstractStream):
         imol = self._imol
         if hasattr(imol, '_phase') and isinstance(imol._phase, tmo._phase.LockedPhase):
             raise RuntimeError('phase is locked; stream cannot be unlinked')
-        self._imol = imol.copy()
-        self._thermal_condition = self._thermal_condition.copy()
+        self._imol = imol = imol.copy()
+        self._thermal_condition = thermal_condition = self._thermal_condition.copy()
         self.reset_cache()
+        if hasattr(self, '_streams'): # Keep phase views attached to the new data
+            for phase, stream in self._streams.items():
+                stream._imol = imol.get_phase(phase)
+                stream._thermal_condition = thermal_condition
         
     def copy_like(self, other):
         """
